@@ -110,7 +110,7 @@ def _opts(k):
     bit = lambda n: [bool((k >> (n + j)) & 1) for j in range(3)]
     uni = bit(6)
     return {"volume_id": bit(0), "two_checksums": bit(2), "implant": bit(4), "unified": uni,
-            "additional": [["Client", "Workstation"][: 1 + (k + j) % 2] if uni[j] else [] for j in range(3)]}
+            "additional": [[["Client"], ["Client", "Workstation"], ["Workstation", "Client"]][(k + j) % 3] if uni[j] else [] for j in range(3)]}
 
 
 def jobs(tier, seed):
